@@ -98,6 +98,17 @@ def oracle(ck):
             short = np.asarray(polynomial_detrend(x[:2], order=5))
             if np.max(np.abs(short)) > 1e-9 * (1 + np.max(np.abs(x[:2]))):
                 ck.violation("a 2-sample series detrended with order 5 (reduced to 1) is not zero", di, tag="short")
+    # integer-dtype series (counts, ADC codes): the residual must still have zero mean / be orthogonal to polynomials
+    for dt in (np.int64, np.int32, np.uint16):
+        for order in (0, 1, 2):
+            xi = np.array([ck.rng.randint(0, 9000) for _ in range(37)]).astype(dt)
+            ri = np.asarray(polynomial_detrend(xi, order=order), float)
+            if abs(float(np.mean(ri))) > 1e-8 * (1 + float(np.max(np.abs(xi.astype(float))))):
+                ck.violation("order-%d detrend of an %s series leaves mean %r" % (order, np.dtype(dt).name, float(np.mean(ri))), dict(dtype=np.dtype(dt).name, order=order, x=[int(v) for v in xi]), tag="int-dtype")
+    dfi = pd.DataFrame({"counts": np.arange(40, dtype=np.int64) % 7 + 3, "v": np.linspace(0, 1, 40)})
+    oi = df_detrend(dfi, order=0)
+    if abs(float(oi["counts_detrended"].mean())) > 1e-9 or abs(float(oi["v_detrended"].mean())) > 1e-12:
+        ck.violation("df_detrend(order=0) leaves a non-zero mean in an integer column (%r)" % float(oi["counts_detrended"].mean()), dict(columns=["counts", "v"]), tag="int-dtype-df")
     # DataFrame wrapper: per selected numeric column
     df = pd.DataFrame({"a": np.arange(50.0) ** 2, "b": np.sin(np.arange(50) / 3.0) + 0.1 * np.arange(50), "s": ["x"] * 50})
     out = df_detrend(df, columns=["a", "s"], order=2)
